@@ -2,9 +2,11 @@ package numscript
 
 import (
 	"context"
+	"math/big"
 	"strings"
 
 	"github.com/formancehq/numscript/internal/interpreter"
+	"github.com/formancehq/numscript/internal/parser"
 	"github.com/formancehq/numscript/internal/zzvrt"
 )
 
@@ -123,4 +125,46 @@ func ZZC13RoundTrip(typ, kind string) {
 	}
 	zzvrt.Assert(same, "C13:read-back-type-identical")
 	zzvrt.Reach("c13-roundtrip-end")
+}
+
+// ZZC06Literal: the portions written in a destination allotment denote exactly
+// the expected rationals ("n/d,n/d,..." computed by the case generator from the
+// text, in base ten) and the send splits accordingly for every amount.
+func ZZC06Literal(script, expected string) {
+	e := zzPrepare(script, "n=mon:USD")
+	if len(e.pr.GetParsingErrors()) != 0 {
+		zzvrt.Reach("skipped-parse-error")
+		return
+	}
+	w := strings.Split(expected, ",")
+	var got []string
+	for _, st := range e.prog.Statements {
+		if s, ok := st.(*parser.SendStatement); ok {
+			if d, ok := s.Destination.(*parser.DestinationAllotment); ok {
+				for _, it := range d.Items {
+					if r, ok := it.Allotment.(*parser.RatioLiteral); ok {
+						got = append(got, zzvrt.Dec(r.Numerator)+"/"+zzvrt.Dec(r.Denominator))
+					}
+				}
+			}
+		}
+	}
+	zzvrt.Assert(len(got) == len(w), "C06:portion-literal-count")
+	if len(got) != len(w) {
+		return
+	}
+	for i := range w {
+		gn, gd := zzSplitRat(got[i])
+		wn, wd := zzSplitRat(w[i])
+		// gn/gd == wn/wd
+		zzvrt.Assert(new(big.Int).Mul(gn, wd).Cmp(new(big.Int).Mul(wn, gd)) == 0, "C06:portion-literal-denotes-the-written-fraction")
+	}
+	zzvrt.Reach("c06-literal-end")
+}
+
+func zzSplitRat(s string) (*big.Int, *big.Int) {
+	p := strings.Split(s, "/")
+	n, _ := new(big.Int).SetString(p[0], 10)
+	d, _ := new(big.Int).SetString(p[1], 10)
+	return n, d
 }
